@@ -12,4 +12,5 @@ import CnbVerif.Props.C11
 #print axioms CnbVerif.C11.not_found_means_absent
 #print axioms CnbVerif.C11.depth_budget_suffices
 #print axioms CnbVerif.C11.d4_counterexample
-#print axioms CnbVerif.C11.shared_top_counterexample
+#print axioms CnbVerif.C11.d8_counterexample
+#print axioms CnbVerif.C11.d8_repaired
